@@ -343,9 +343,13 @@ class Lark(Serialize, Generic[_Return_T]):
                     raise ConfigurationError("cache only works with parser='lalr' for now")
 
                 unhashable = ('transformer', 'postlex', 'lexer_callbacks', 'edit_terminals', '_plugins')
-                options_str = ''.join(k+str(v) for k, v in options.items() if k not in unhashable)
+                options_key = [(k, str(v)) for k, v in options.items() if k not in unhashable]
+                if self.options.postlex is not None:
+                    # The postlexer decides which unused terminals are kept in the grammar
+                    options_key.append(('postlex.always_accept', str(sorted(self.options.postlex.always_accept))))
                 from . import __version__
-                s = grammar + options_str + __version__ + str(sys.version_info[:2])
+                # Use repr of a tuple, so that the parts can't run into each other
+                s = repr((grammar, options_key, __version__, sys.version_info[:2]))
                 cache_sha256 = sha256_digest(s)
 
                 if isinstance(self.options.cache, str):
